@@ -12,9 +12,11 @@ import json, random
 from fractions import Fraction
 import calc_ops as CO
 from calc_ops import rtok, dy_tokens, is_dy, ser_tokens, ser_start, prd_tokens, prd_start, lim_tokens
+from calc_ops import poly_tokens, lin_tokens
+from math import factorial, comb
 
 LEVEL = "translation_validation"
-LEAN_MODULES = ["MpProofs.CalcRef", "MpProofs.CalcSer", "MpProofs.CalcLogicA", "Props.C27"]
+LEAN_MODULES = ["MpProofs.CalcRef", "MpProofs.CalcSer", "MpProofs.CalcLogicA", "Props.C27", "Props.C27sumem"]
 ASSUMPTIONS = [
     "'accurate to within 2^(10-p) relative' is instantiated as |y - S| <= 2^(10-p) * |S|, p = mp.prec at the call",
     "an acceleration method is only requested on the series shapes mpmath documents it for: richardson / euler-maclaurin on "
@@ -24,6 +26,18 @@ ASSUMPTIONS = [
     "sin/cos series with |x| <= 2) because nsum's cancellation-driven precision increase only acts in one dimension; "
     "sumem is only requested for p-series / telescoping rational summands; a doubly infinite sum glues two one-sided series of the SAME class; sumem is called on a tail "
     "[a, inf) with a >= max(20, p/2) (the Euler-Maclaurin series is asymptotic) and compared with S - (exact head)",
+    "sumem on polynomial summands P(k - s) over finite ranges [a, b] (degree <= 9, 2 <= b - a <= 30, exact rational reference "
+    "polySumQ, Props/C27sumem.lean) is decided at 2^(10-p) on the inputs where sumem's documented stopping rule (reject = 10) does not "
+    "fire before the last non-zero Euler-Maclaurin correction term: with T_k = B_(k+1)/(k+1)! * (P^(k)(b-s) - P^(k)(a-s)) computed "
+    "exactly, T_k != 0 and |T_(k-2)| >= 16*|T_k| for every odd k with 5 <= k <= (order of the last non-zero term); the generator plants "
+    "T_1 = 0 (or 0 < |T_1| < 2^(-p-10)) with T_3 != 0 in most cases; sum and evaluation are well conditioned "
+    "(sum_i sum_j |c_j u_i^j| <= 2^6 |S|); inputs where the rule does fire early (T_3 = 0 or T_k = 0, k >= 5, before the last term, or a "
+    "quotient below 10) are run too and reported under their own site",
+    "sumem on tails [a, inf) (a as above) of c1*s1 + c2*s2 (+ c3*s3), s_i in {1/k^2, 1/k^4, 1/((k+m)(k+m+1))}, coefficients solved so "
+    "that the summand's first derivative vanishes at a (first Euler-Maclaurin correction = 0, third != 0); reference = proved closed "
+    "forms minus the exact head (linTailRef); only combinations with |c1 t1| + |c2 t2| (+ |c3 t3|) <= 4 |f| at k = a and k = 2a",
+    "every sumem tail result (old and new classes) more than 2^(16-p) relative away from the reference is reported under the site "
+    "sumem[beyond 2^(16-p)], which no known finding covers (the recorded loss of sumem on p-series tails is 2^(11..14-p))",
     "summands are evaluated by mpmath at the precision nsum sets; non-dyadic parameters are re-rounded at that precision",
     "the quantifier over series/ranges/precisions is sampled; the oracle (closed form + enclosure + comparison) is proved",
     "mp.richardson is compared with the exact rational model of its code (lean/MpModel/CalcLogicA.lean) within "
@@ -148,6 +162,11 @@ def case_nsum(r, st, quick):
         ref = "sersum add inf %s inf %s" % (ser_tokens(d1), ser_tokens(d2))
     elif shape == "finite":
         d = gen_ser(r)
+        # "equal the exact finite sum (up to rounding)": a relative criterion on the RESULT is only meaningful for well-conditioned
+        # sums (sum|t| / |sum t| <= 2^6, as for the multi-dimensional shapes); exp/sin/cos summands with large |x| cancel by 2^20
+        # and more, where every floating-point summation is off by eps * sum|t| (that is rounding, not a defect)
+        while d["ser"] in ("expS", "sinS", "cosS") and not fast(d):
+            d = gen_ser(r)
         a = ser_start(d) + r.choice([0, 0, 1, 3])
         b = a + r.choice([0, 1, 5, 20, 60, -1, -3])
         t["sers"] = [d]; t["a"], t["b"] = a, b
@@ -208,6 +227,8 @@ def case_nsum(r, st, quick):
             if isinstance(ref, str):
                 out["v"] = "%s %s %d 10" % (ref, dy_tokens(y), prec)
                 out["v13"] = "%s %s %d 13" % (ref, dy_tokens(y), prec)
+                if shape == "sumem":
+                    out["v16"] = "%s %s %d 16" % (ref, dy_tokens(y), prec)
         # transcription cross-check
         for i, d in enumerate(sers):
             for j in range(len(res["terms"][i])):
@@ -237,6 +258,8 @@ def case_nsum(r, st, quick):
         if v_ == "violates" and ans.get("v") == "violates":
             if shape == "sumem" and ans.get("v13") == "ok":
                 return v_, w_ + " (but within 2^(13-p))", "calculus.extrapolation.sumem[within 2^(13-p)]"
+            if shape == "sumem" and ans.get("v16") == "violates":
+                return v_, w_ + " (and exceeds 2^(16-p))", "calculus.extrapolation.sumem[beyond 2^(16-p)]"
             if prec < 40 and shape not in ("sumem", "sumap"):
                 return v_, w_, "calculus.extrapolation.nsum[prec<40]"
             if any(ratio_of(d) is not None and ratio_of(d) >= Fraction(4, 5) for d in sers) and shape not in ("sumem", "sumap"):
@@ -247,6 +270,266 @@ def case_nsum(r, st, quick):
     if shape in ("sumem", "sumap"):
         site = "calculus.extrapolation.%s" % shape
     return {"task": t, "site": site, "lines": lines, "judge": judge, "nontrivial": True, "report_timeout": False}
+
+
+# ---------------------------------------------------------------------------------------------------------------------
+# sumem: summands whose FIRST Euler-Maclaurin correction term vanishes (or is negligible) while later ones are not
+# ---------------------------------------------------------------------------------------------------------------------
+
+def bernoulli_numbers(n):
+    """B_0 .. B_n as Fractions (B_1 = -1/2)"""
+    B = []
+    for m in range(n + 1):
+        B.append(Fraction(1) if m == 0 else -sum(comb(m + 1, k) * B[k] for k in range(m)) / (m + 1))
+    return B
+
+
+BERN = bernoulli_numbers(12)
+
+
+def poly_eval(ts, x):
+    return sum((Fraction(c) * Fraction(x) ** n for c, n in ts), Fraction(0))
+
+
+def poly_deriv(ts, j):
+    return [(Fraction(c) * (factorial(n) // factorial(n - j)), n - j) for c, n in ts if n >= j]
+
+
+def em_terms(ts, ua, ub):
+    """exact Euler-Maclaurin correction terms T_k = B_(k+1)/(k+1)! * (P^(k)(ub) - P^(k)(ua)), k = 1, 3, .., 11"""
+    out = {}
+    for k in range(1, 12, 2):
+        dk = poly_deriv(ts, k)
+        out[k] = BERN[k + 1] / factorial(k + 1) * (poly_eval(dk, ub) - poly_eval(dk, ua))
+    return out
+
+
+def em_class(T):
+    """how sumem's loop (extrapolation.py: terms k = 1, 3 are always added; from k = 5 on the loop stops when |T_k| < tol or when
+    |T_(k-2)|/|T_k| < reject = 10) meets the exact terms.  Returns (label, last) with label in
+       regular     the stopping rule cannot fire before the last non-zero term (quotients >= 16)
+       fires-early a zero term or a quotient < 10 occurs at some k in 5..last  (documented heuristic stop / false convergence)
+       borderline  a quotient in [10, 16)  (not used)"""
+    nz = [k for k in T if T[k] != 0]
+    last = max(nz) if nz else 0
+    label = "regular"
+    for k in range(5, last + 1, 2):
+        if T[k] == 0 or abs(T[k - 2]) < 10 * abs(T[k]):
+            return "fires-early", last
+        if abs(T[k - 2]) < 16 * abs(T[k]):
+            label = "borderline"
+    return label, last
+
+
+def gen_sumem_poly(r, prec):
+    """P (term list in u = k - s), s, a, b with a planted vanishing odd-order correction term"""
+    for _ in range(200):
+        plant = r.choices([1, 1, 1, 1, 1, 1, "tiny1", 3, 5, None], weights=[1, 1, 1, 1, 1, 1, 1, 1, 1, 2])[0]
+        L = r.randint(2, 30)
+        a = r.randint(-40, 40)
+        s = a + r.choice([0, 0, 0, -1, 1, L // 2])
+        j = plant if isinstance(plant, int) else 1
+        dmax = 9 if j == 5 else 7
+        d = r.randint(max(2, j + 1), dmax)
+        g = {}
+        for n in range(d + 1):
+            if r.random() < 0.6 or n == d:
+                c = Fraction(r.randint(-9, 9), r.choice([1, 1, 1, 2, 4, 3]))
+                if c:
+                    g[n] = c
+        if not g or max(g) < 2:
+            continue
+        ua, ub = a - s, a - s + L
+        if plant is not None:
+            m = r.randint(j + 1, dmax)
+            ts0 = sorted(g.items())
+            Dg = poly_eval(poly_deriv([(c, n) for n, c in ts0], j), ub) - poly_eval(poly_deriv([(c, n) for n, c in ts0], j), ua)
+            Dm = poly_eval(poly_deriv([(1, m)], j), ub) - poly_eval(poly_deriv([(1, m)], j), ua)
+            if Dm == 0:
+                continue
+            g[m] = g.get(m, Fraction(0)) - Dg / Dm
+            if plant == "tiny1":
+                # a first-derivative difference that is non-zero but far below the tolerance
+                D2 = 2 * (ub - ua)
+                g[2] = g.get(2, Fraction(0)) + Fraction(r.choice([-1, 1]), 2 ** (prec + r.randint(14, 40))) / D2
+            g = {n: c for n, c in g.items() if c}
+        ts = [(c, n) for n, c in sorted(g.items())]
+        if not ts:
+            continue
+        T = em_terms(ts, ua, ub)
+        label, last = em_class(T)
+        if label == "borderline":
+            continue
+        if plant in (1, "tiny1") and (last < 3 or T[3] == 0):
+            continue                      # the planted class needs a non-negligible later term
+        vals = [poly_eval(ts, ua + i) for i in range(L + 1)]
+        S = sum(vals)
+        A = sum(sum(abs(Fraction(c)) * abs(Fraction(ua + i)) ** n for c, n in ts) for i in range(L + 1))
+        if S == 0 or A > 64 * abs(S):
+            continue
+        if plant == "tiny1" and not (0 < abs(T[1]) < Fraction(1, 2 ** (prec + 10))):
+            continue
+        vanish = [k for k in range(1, last, 2) if T[k] == 0]
+        return {"ts": ts, "s": s, "a": a, "b": a + L, "plant": str(plant), "label": label, "last": last, "vanish": vanish,
+                "tiny1": plant == "tiny1"}
+    raise RuntimeError("gen_sumem_poly: no admissible polynomial")
+
+
+def case_sumem_poly(r, st, quick):
+    prec = r.choice(PRECS)
+    d = gen_sumem_poly(r, prec)
+    ts, s, a, b = d["ts"], d["s"], d["a"], d["b"]
+    t = {"kind": "nsum", "shape": "sumem_poly", "prec": prec, "timeout": 20 if quick else 120,
+         "poly": [[rtok(c), n] for c, n in ts], "s": s, "a": a, "b": b,
+         "em_class": d["label"], "vanishing_correction_orders": d["vanish"], "last_nonzero_order": d["last"]}
+    cls = ("first-term-tiny" if d["tiny1"] else ("first-term-vanishes" if d["vanish"] == [1] else
+           ("generic" if not d["vanish"] else "orders%s-vanish" % d["vanish"])))
+    st.note("nsum_shape", "sumem_poly"); st.note("prec", prec); st.note("sumem_poly_class", "%s/%s" % (d["label"], cls))
+    st.note("sumem_poly_degree", max(n for _, n in ts))
+    pt = poly_tokens(ts)
+    n = b - a
+
+    def lines(res):
+        out = {}
+        v = res["v"]; y = v.get("re")
+        if "im" not in v and is_dy(y):
+            out["v"] = "polysum %s %d %d %s %d 10" % (pt, a - s, n, dy_tokens(y), prec)
+        for j_ in range(len(res["terms"][0])):
+            out["t%d" % j_] = "polysumq %s %d 0" % (pt, a - s + j_)
+        for k in (1, 3, 5):
+            out["d%d" % k] = "polyddiff %s %d %d %d" % (pt, k, a - s, b - s)
+        return out
+
+    base = _judge(prec, st)
+
+    def judge(res, ans):
+        # transcription: python summand at prec 300 vs the exact Lean value; class label: python Fractions vs the Lean derivative differences
+        for j_, tv in enumerate(res["terms"][0]):
+            q_ = ans.get("t%d" % j_, "")
+            if not q_.startswith("Q:") or not is_dy(tv.get("re")):
+                return "undecided", None
+            q = Fraction(q_[2:]); y = CO.dy_fraction(tv["re"])
+            scale = sum(abs(Fraction(c)) * abs(Fraction(a - s + j_)) ** n_ for c, n_ in ts)
+            if q != poly_eval(ts, a - s + j_) or abs(y - q) > scale * Fraction(1, 2 ** 280):
+                st.note("transcription_mismatch", json.dumps(t["poly"]))
+                return "undecided", "transcription mismatch"
+        for k in (1, 3, 5):
+            q_ = ans.get("d%d" % k, "")
+            dk = poly_deriv(ts, k)
+            if not q_.startswith("Q:") or Fraction(q_[2:]) != poly_eval(dk, b - s) - poly_eval(dk, a - s):
+                st.note("transcription_mismatch", "derivative difference order %d %s" % (k, json.dumps(t["poly"])))
+                return "undecided", "class label mismatch"
+        v_, w_ = base(res, ans)
+        if v_ == "violates" and d["label"] == "fires-early":
+            return v_, w_, "calculus.extrapolation.sumem[polynomial,stopping-rule-fires-before-last-term]"
+        return v_, w_
+
+    return {"task": t, "site": "calculus.extrapolation.sumem[polynomial]", "lines": lines, "judge": judge, "nontrivial": True,
+            "report_timeout": False}
+
+
+def _ser_deriv_at(d, a):
+    """exact first derivative of the summand (as a function of a real index) at the integer a"""
+    k = d["ser"]
+    if k == "zeta2":
+        return Fraction(-2, a ** 3)
+    if k == "zeta4":
+        return Fraction(-4, a ** 5)
+    m = int(d["a"])
+    return -Fraction(1, (a + m) ** 2) + Fraction(1, (a + m + 1) ** 2)
+
+
+def _ser_deriv3_at(d, a):
+    k = d["ser"]
+    if k == "zeta2":
+        return Fraction(-24, a ** 5)
+    if k == "zeta4":
+        return Fraction(-120, a ** 7)
+    m = int(d["a"])
+    return -Fraction(6, (a + m) ** 4) + Fraction(6, (a + m + 1) ** 4)
+
+
+def _ser_term_at(d, k):
+    if d["ser"] == "zeta2":
+        return Fraction(1, k ** 2)
+    if d["ser"] == "zeta4":
+        return Fraction(1, k ** 4)
+    m = int(d["a"])
+    return Fraction(1, (k + m) * (k + m + 1))
+
+
+def gen_sumem_lin(r, a):
+    pool = [{"ser": "zeta2"}, {"ser": "zeta4"}, {"ser": "tele", "a": 0}, {"ser": "tele", "a": 1}, {"ser": "tele", "a": 3},
+            {"ser": "tele", "a": 10}]
+    for _ in range(400):
+        m = r.choice([2, 2, 3])
+        ds = r.sample(pool, m)
+        cs = [Fraction(r.choice([1, 1, 2, 3, 5, -1, -2]), r.choice([1, 1, 2, 3])) for _ in range(m - 1)]
+        dl = _ser_deriv_at(ds[-1], a)
+        cl = -sum(c * _ser_deriv_at(d, a) for c, d in zip(cs, ds)) / dl
+        cs.append(cl)
+        if cl == 0:
+            continue
+        lin = list(zip(cs, ds))
+        if sum(c * _ser_deriv_at(d, a) for c, d in lin) != 0:
+            continue
+        if sum(c * _ser_deriv3_at(d, a) for c, d in lin) == 0:
+            continue
+        ok = True
+        for k in (a, 2 * a):
+            f = sum(c * _ser_term_at(d, k) for c, d in lin)
+            if f == 0 or sum(abs(c * _ser_term_at(d, k)) for c, d in lin) > 4 * abs(f):
+                ok = False
+        if ok:
+            return lin
+    raise RuntimeError("gen_sumem_lin: no admissible combination")
+
+
+def case_sumem_lin(r, st, quick):
+    prec = r.choice(PRECS)
+    a = max(20, prec // 2) + r.choice([0, 1, 5])
+    lin = gen_sumem_lin(r, a)
+    t = {"kind": "nsum", "shape": "sumem_lin", "prec": prec, "timeout": 20 if quick else 120,
+         "lin": [[rtok(c), d] for c, d in lin], "a": a}
+    st.note("nsum_shape", "sumem_lin"); st.note("prec", prec)
+    st.note("sumem_lin_members", "+".join(sorted(d["ser"] for _, d in lin)))
+    lt = lin_tokens(lin)
+
+    def lines(res):
+        out = {}
+        v = res["v"]; y = v.get("re")
+        if "im" not in v and is_dy(y):
+            for k in (10, 13, 16):
+                out["v%d" % k if k != 10 else "v"] = "lintail %s 1 %d %s %d %d" % (lt, a, dy_tokens(y), prec, k)
+        for j_ in range(len(res["terms"][0])):
+            out["t%d" % j_] = "linterm %s %d" % (lt, a + j_)
+        return out
+
+    base = _judge(prec, st)
+
+    def judge(res, ans):
+        for j_, tv in enumerate(res["terms"][0]):
+            q_ = ans.get("t%d" % j_, "")
+            if not q_.startswith("Q:") or not is_dy(tv.get("re")):
+                return "undecided", None
+            q = Fraction(q_[2:]); y = CO.dy_fraction(tv["re"])
+            scale = sum(abs(c * _ser_term_at(d, a + j_)) for c, d in lin)
+            if q != sum(c * _ser_term_at(d, a + j_) for c, d in lin) or abs(y - q) > scale * Fraction(1, 2 ** 280):
+                st.note("transcription_mismatch", json.dumps(t["lin"]))
+                return "undecided", "transcription mismatch"
+        v_, w_ = base(res, ans)
+        if v_ == "violates" and ans.get("v") == "violates":
+            # the recorded loss of sumem on p-series tails (known findings F-C27-SUMEM, F-C27-SUMEM2) is 2^(11..14-p)
+            if ans.get("v13") == "ok":
+                return v_, w_ + " (but within 2^(13-p))", "calculus.extrapolation.sumem[within 2^(13-p)]"
+            if ans.get("v16") == "ok":
+                return v_, w_ + " (but within 2^(16-p))", "calculus.extrapolation.sumem"
+            if ans.get("v16") == "violates":
+                return v_, w_ + " (and exceeds 2^(16-p))", "calculus.extrapolation.sumem[beyond 2^(16-p)]"
+        return v_, w_
+
+    return {"task": t, "site": "calculus.extrapolation.sumem[first-derivative-vanishes-at-start]", "lines": lines, "judge": judge,
+            "nontrivial": True, "report_timeout": False}
 
 
 def case_nprod(r, st, quick):
@@ -360,9 +643,13 @@ def run(ctx):
     st = CO.Stats()
     quick = ctx.quick
     n1, n2, n3, n4 = (330, 90, 90, 60) if quick else (5000, 1200, 1200, 600)
+    n5, n6 = (48, 24) if quick else (1500, 700)
     cases = ([case_nsum(r, st, quick) for _ in range(n1)] + [case_nprod(r, st, quick) for _ in range(n2)] +
              [case_limit(r, st, quick) for _ in range(n3)] + [case_richardson(r, st, quick) for _ in range(n4)])
-    info, fails = CO.run_cases(cases, ctx, nworkers=6, default_timeout=20.0, budget_s=70 if quick else 3000)
+    # the additional sumem classes draw from their own generator stream so that the older streams are unchanged
+    r2 = random.Random(ctx.seed * 7919 + 27)
+    cases += [case_sumem_poly(r2, st, quick) for _ in range(n5)] + [case_sumem_lin(r2, st, quick) for _ in range(n6)]
+    info, fails = CO.run_cases(cases, ctx, nworkers=6, default_timeout=20.0, budget_s=90 if quick else 3600)
     s = info["summary"]
     evaluations = sum(1 for c in cases if c.get("verdict") in ("ok", "violates", "undecided"))
     dis = []
@@ -371,7 +658,7 @@ def run(ctx):
     cov = {
         "evaluations": evaluations,
         "distinct_nontrivial": info["distinct_nontrivial"],
-        "programs": 7,     # nsum, nprod, limit, sumem, sumap, richardson (T1), standardize (through nsum ranges)
+        "programs": 7,     # nsum, nprod, limit, sumem (p-series tails, finite polynomial ranges, tails with vanishing first correction), sumap, richardson (T1), standardize
         "disagreements_checked": evaluations,
         "rule": "series/product/limit drawn from the proved families with rational parameters; index range shape, shift, method (restricted "
                 "to the documented applicability) and precision drawn independently; non-trivial = the real routine returned a finite real "
